@@ -72,8 +72,6 @@ Proof. destruct t; cbn [PsetValues.vcanon]; intros H;
   - apply (via_exact _ (c_stack_lawful maxvec cap_vecu8)) in H. subst; lia.
   - now apply schnorr_idem in H.
   - apply taptree_len in H. lia.
-  - destruct (33 <=? length v)%nat; [|discriminate]. apply guard_ok in H as [-> _]. apply firstn_len_le.
-  - destruct (33 <=? length v)%nat; [|discriminate]. apply guard_ok in H as [-> _]. apply firstn_len_le.
   - unfold preimage in H. destruct (bytes_eqb (Hrip v) k); inversion H; subst; lia.
   - unfold preimage in H. destruct (bytes_eqb (Hsha v) k); inversion H; subst; lia.
   - unfold preimage in H. destruct (bytes_eqb (Hh160 v) k); inversion H; subst; lia.
@@ -90,10 +88,6 @@ Proof. intros NT. destruct t; try congruence; cbn [PsetValues.vcanon]; intros H;
   - pose proof (via_exact _ (c_txout_nowit_lawful pt_ok maxvec) _ _ H). now subst.
   - pose proof (via_exact _ (c_stack_lawful maxvec cap_vecu8) _ _ H). now subst.
   - now apply schnorr_idem in H.
-  - destruct (Nat.leb_spec 33 (length v)) as [L|]; [|discriminate]. apply guard_ok in H as [-> G].
-    assert (E : length (firstn 33 v) = 33%nat) by (rewrite firstn_length; lia). rewrite E. cbn [Nat.leb]. rewrite firstn_idem. now apply guard_true.
-  - destruct (Nat.leb_spec 33 (length v)) as [L|]; [|discriminate]. apply guard_ok in H as [-> G].
-    assert (E : length (firstn 33 v) = 33%nat) by (rewrite firstn_length; lia). rewrite E. cbn [Nat.leb]. rewrite firstn_idem. now apply guard_true.
   - unfold preimage in *. destruct (bytes_eqb (Hrip v) k) eqn:E; inversion H; subst. now rewrite E.
   - unfold preimage in *. destruct (bytes_eqb (Hsha v) k) eqn:E; inversion H; subst. now rewrite E.
   - unfold preimage in *. destruct (bytes_eqb (Hh160 v) k) eqn:E; inversion H; subst. now rewrite E.
